@@ -184,7 +184,10 @@ Rows(e, dom, sel) == LET R == Ev(e, << >>, dom)
 \* sampling picks (connective, left, right) triples from a product set, which TLC samples without enumerating it
 Mk(t) == IF t[1] = "not" THEN <<"not", t[2]>> ELSE <<t[1], t[2], t[3]>>
 Pool == IF SampleSize = 0 THEN ExprD(MaxDepth)
-        ELSE LET S == ExprD(MaxDepth - 1) IN { Mk(t) : t \in RandomSubset(SampleSize, {"and", "or", "not"} \X S \X S) }
+        ELSE LET S0 == ExprD(MaxDepth - 1)
+                 \* RandomSubset needs a set of at most 10^6 elements: deeper levels draw their operands from a sample of the level below
+                 S == IF Cardinality(S0) > 500 THEN RandomSubset(500, S0) ELSE S0
+             IN { Mk(t) : t \in RandomSubset(SampleSize, {"and", "or", "not"} \X S \X S) }
 Init == cond \in Pool
 Next == FALSE /\ UNCHANGED cond
 Spec == Init /\ [][Next]_cond
